@@ -9,6 +9,8 @@ use espada::hand_range::HandRange;
 pub enum Spec {
     /// construct (new + scope + into_iter), then next() until None plus `extra` more calls
     Eval { cfg: Config, scope: (u8, u8, u8, u8), extra: usize },
+    /// construct, take `take` showdowns, then abandon the iterator (it is dropped mid-enumeration)
+    Abandon { cfg: Config, scope: (u8, u8, u8, u8), take: usize },
     /// parse -> to_string -> rank_pairs -> orphan_card_pairs
     Parser { text: String },
     /// misuse that fails: an evaluator whose board already holds a turn card; building the iterator
@@ -51,6 +53,7 @@ impl Actor {
     pub fn new(spec: &Spec) -> Actor {
         let state = match spec {
             Spec::Eval { .. } => State::EvalFresh,
+            Spec::Abandon { .. } => State::EvalFresh,
             Spec::Parser { .. } => State::ParserFresh,
             Spec::BadBoard { .. } => State::ParserFresh,
         };
@@ -61,7 +64,7 @@ impl Actor {
     pub fn step(&mut self) -> String {
         let st = std::mem::replace(&mut self.state, State::EvalFresh);
         match (st, &self.spec) {
-            (State::EvalFresh, Spec::Eval { cfg, scope, .. }) => {
+            (State::EvalFresh, Spec::Eval { cfg, scope, .. }) | (State::EvalFresh, Spec::Abandon { cfg, scope, .. }) => {
                 let mut ev = cfg.evaluator();
                 ev.scope(scope.0, scope.1, scope.2, scope.3);
                 self.state = State::EvalRunning(ev.into_iter());
@@ -143,6 +146,13 @@ pub fn solo(spec: &Spec) -> Vec<String> {
                 out.push(a.step());
             }
         }
+        Spec::Abandon { take, .. } => {
+            out.push(a.step());
+            for _ in 0..*take {
+                out.push(a.step());
+            }
+            // `a` is dropped here, in the middle of its enumeration
+        }
         Spec::Parser { .. } => {
             for _ in 0..4 {
                 out.push(a.step());
@@ -166,9 +176,17 @@ pub fn eval_spec(flop: [&str; 3], ranges: &[&[(&str, f32)]], scope: (u8, u8, u8,
     Spec::Eval { cfg: Config { flop: [c(flop[0]), c(flop[1]), c(flop[2])], ranges: rs, label }, scope, extra }
 }
 
+pub fn abandon_spec(flop: [&str; 3], ranges: &[&[(&str, f32)]], scope: (u8, u8, u8, u8), take: usize) -> Spec {
+    match eval_spec(flop, ranges, scope, 0) {
+        Spec::Eval { cfg, scope, .. } => Spec::Abandon { cfg, scope, take },
+        o => o,
+    }
+}
+
 pub fn describe(spec: &Spec) -> String {
     match spec {
         Spec::Eval { cfg, scope, .. } => format!("eval[{} scope={:?}]", cfg.key(), scope),
+        Spec::Abandon { cfg, scope, take } => format!("abandon-after-{}[{} scope={:?}]", take, cfg.key(), scope),
         Spec::Parser { text } => format!("parser[{}]", text),
         Spec::BadBoard { cards } => format!("bad-board[{}]", cards_text(cards)),
     }
@@ -184,6 +202,8 @@ pub fn groups() -> Vec<(&'static str, Vec<Spec>)> {
     let r4: &[(&str, f32)] = &[("7s7h", 1.0)];
     let r5: &[(&str, f32)] = &[("QcQd", 0.5), ("5d5h", 1.0)];
     let r6: &[(&str, f32)] = &[("JdTh", 1.0), ("9c9d", 0.5)];
+    let r7: &[(&str, f32)] = &[("JdTh", 1.0), ("9c9d", 0.5), ("7s6s", 0.25), ("5h5d", 1.0)];
+    let r8: &[(&str, f32)] = &[("QcJc", 1.0), ("4s4h", 0.5)];
     vec![
         // identical flop, ranges and scope: 1 + 5 showdowns + None + 2 extra = 9 operations each
         ("identical", vec![eval_spec(f1, &[r1, r2], (0, 1, 0, 6), 2), eval_spec(f1, &[r1, r2], (0, 1, 0, 6), 2)]),
@@ -213,6 +233,10 @@ pub fn groups() -> Vec<(&'static str, Vec<Spec>)> {
         // same flop, same number of players, same scope - only the ranges differ (a cache recognising a job by anything
         // but its contents hands the second one the first one's ranges)
         ("same-flop-same-count", vec![eval_spec(f1, &[r1, r2], (0, 1, 0, 6), 1), eval_spec(f1, &[r3, r2], (0, 1, 0, 6), 1), eval_spec(f1, &[r2, r1], (0, 1, 0, 6), 1)]),
+        // three players per evaluator with overlapping ranges (code paths that only exist for 3+ players)
+        ("three-players", vec![eval_spec(f1, &[r1, r3, r2], (0, 1, 0, 4), 1), eval_spec(f1, &[r1, r3, r2], (0, 1, 0, 4), 1)]),
+        // an evaluator abandoned in the middle of a deal (dropped with a non-zero odometer), then others built after it
+        ("after-an-abandoned-one", vec![abandon_spec(f1, &[r7, r7], (0, 1, 0, 3), 3), eval_spec(f1, &[r7, r8], (0, 1, 0, 3), 1), eval_spec(f2, &[r8], (0, 1, 0, 3), 1)]),
         // three evaluators, 6 operations each
         ("three-evaluators", vec![eval_spec(f1, &[r1], (0, 1, 0, 4), 1), eval_spec(f1, &[r1], (0, 1, 0, 4), 1), eval_spec(f2, &[r3], (47, 48, 48, 49), 3)]),
         // four evaluators, 3-4 operations each
